@@ -809,14 +809,20 @@ def check_order(w, i, t, op, items):
     sch, _ = search_schema(t, op)
     if len(sch) < 2:
         return
-    vals = []
+    vals, parts = [], []
     for it in items:
         v = item_get(it, sch[1][0])
         if v is MISSING:
             return
         vals.append(sort_value(v))
+        hv = item_get(it, sch[0][0])
+        # with number keys identified by their text (the deviation switch of KF-C13-number-keys-by-text) two spellings of one
+        # partition key value are two partitions: the order is only defined within each
+        parts.append(json.dumps(hv, sort_keys=True) if (TEXT_KEYS and hv is not MISSING) else None)
     fwd = op.get("forward", True)
-    for a, b in zip(vals, vals[1:]):
+    for (a, pa), (b, pb) in zip(zip(vals, parts), zip(vals[1:], parts[1:])):
+        if pa != pb:
+            continue
         try:
             bad = (a > b) if fwd else (a < b)
         except TypeError:
